@@ -521,7 +521,9 @@ fn fmt_snippet_window_with_mapping_or_fallback(
         }
     };
     let gutter_width = max_display_row.to_string().len();
-    writeln!(f, "  |")?;
+    // Frame and marker rows use the same gutter as the numbered rows, so that the marker stays
+    // under its column from line 10 on as well.
+    writeln!(f, "{space:>gutter_width$} |", space = "")?;
 
     let mut cur_row = window_start_row;
     for line in window_text.split_inclusive('\n') {
@@ -545,9 +547,14 @@ fn fmt_snippet_window_with_mapping_or_fallback(
                 .unwrap_or(0);
             let caret_chars = window_text[line_byte_start..local_start].chars().count();
             if msg.is_empty() {
-                writeln!(f, "  | {space:>caret_chars$}^", space = "")?;
+                writeln!(f, "{space:>gutter_width$} | {space:>caret_chars$}^", space = "")?;
             } else {
-                writeln!(f, "  | {space:>caret_chars$}^ {msg}", space = "", msg = msg)?;
+                writeln!(
+                    f,
+                    "{space:>gutter_width$} | {space:>caret_chars$}^ {msg}",
+                    space = "",
+                    msg = msg
+                )?;
             }
         }
 
@@ -570,14 +577,19 @@ fn fmt_snippet_window_with_mapping_or_fallback(
                 .unwrap_or(0);
             let caret_chars = window_text[line_byte_start..local_start].chars().count();
             if msg.is_empty() {
-                writeln!(f, "  | {space:>caret_chars$}^", space = "")?;
+                writeln!(f, "{space:>gutter_width$} | {space:>caret_chars$}^", space = "")?;
             } else {
-                writeln!(f, "  | {space:>caret_chars$}^ {msg}", space = "", msg = msg)?;
+                writeln!(
+                    f,
+                    "{space:>gutter_width$} | {space:>caret_chars$}^ {msg}",
+                    space = "",
+                    msg = msg
+                )?;
             }
         }
     }
 
-    writeln!(f, "  |")
+    writeln!(f, "{space:>gutter_width$} |", space = "")
 }
 
 /// Print a message optionally suffixed with a localized location suffix.
